@@ -197,7 +197,10 @@ class GAMWriter:
             payoffs = np.array2string(
                 player.payoff_array.transpose(
                     (*range(g.N-i, g.N), *range(g.N-i))
-                ).ravel(order='F'))[1:-1]
+                ).ravel(order='F'),
+                threshold=player.payoff_array.size+1,  # Never summarize
+                floatmode='unique'  # Digits needed to round-trip exactly
+            )[1:-1]
             s += ' '.join(payoffs.split()) + ' '
 
         return s.rstrip()
